@@ -78,6 +78,44 @@ class Sym:
         return hash(("Sym", self.name))
 
 
+class Pos:
+    """a character position: exactly `lo`, or some unknown position >= lo (it lies behind a name of unknown length)"""
+
+    def __init__(self, lo, exact, s=None, part=None):
+        self.lo = lo
+        self.exact = exact
+        self.s = s          # the template the position refers to
+        self.part = part    # index into s.parts of the character at this position
+
+    def shifted(self, k):
+        """the position k characters further (only across concrete characters)"""
+        if self.s is None or self.part is None:
+            return None
+        j = self.part + k
+        lo_, hi_ = (self.part, j) if k >= 0 else (j, self.part)
+        if j < 0 or j > len(self.s.parts) or not all(isinstance(p, str) for p in self.s.parts[lo_:hi_]):
+            return None
+        return Pos(self.lo + k, False, self.s, j)
+
+    def __repr__(self):
+        return "%d" % self.lo if self.exact else ">=%d" % self.lo
+
+    def cmp(self, sym, k):
+        """three-valued comparison with the int k: True / False / None"""
+        if self.exact:
+            return {"==": self.lo == k, "!=": self.lo != k, "<": self.lo < k, "<=": self.lo <= k,
+                    ">": self.lo > k, ">=": self.lo >= k}[sym]
+        if sym == "==":
+            return False if k < self.lo else None
+        if sym == "!=":
+            return True if k < self.lo else None
+        if sym in (">", ">="):
+            return True if (self.lo > k if sym == ">" else self.lo >= k) else None
+        if sym in ("<", "<="):
+            return False if (self.lo >= k if sym == "<" else self.lo > k) else None
+        return None
+
+
 class SStr:
     def __init__(self, parts=()):
         out = []
@@ -147,7 +185,8 @@ class StringEval:
     def __init__(self, repo, folder, func, strip_as_prefix=False):
         self.repo = repo
         self.folder = folder
-        self.func = func
+        self.func = func          # the entry function
+        self.cur = func           # the function being evaluated
         self.module = func.module
         self.strip_as_prefix = strip_as_prefix
         self.events = []      # ('strip', node, charset, detail) | ('guard', node, value) | ('cut', node, detail)
@@ -155,33 +194,49 @@ class StringEval:
         self.depth = 0
 
     # ---- entry -------------------------------------------------------------------
-    def call(self, args):
+    def call(self, args, kwargs=None):
+        return self.call_function(self.func, args, kwargs or {})
+
+    def call_function(self, func, args, kwargs):
+        """abstractly call a plain module-level repository function (the entry function, recursion, helpers)"""
+        if func.cls is not None:
+            raise AnalysisError("call of the method %s outside the fragment" % func.qualname)
         self.depth += 1
+        saved = (self.cur, self.module, getattr(self, "env_src", None))
         if self.depth > self.MAX_DEPTH:
-            raise AnalysisError("recursion depth exceeded in %s" % self.func.qualname)
+            raise AnalysisError("recursion depth exceeded in %s" % func.qualname)
         try:
-            a = self.func.node.args
+            self.cur = func
+            self.module = func.module
+            a = func.node.args
             names = [x.arg for x in a.posonlyargs + a.args]
             if a.vararg or a.kwarg or a.kwonlyargs:
-                raise AnalysisError("%s: signature outside the fragment" % self.func.qualname)
+                raise AnalysisError("%s: signature outside the fragment" % func.qualname)
+            if len(args) > len(names):
+                raise _Raised(None)
             env = {}
             for n, v in zip(names, args):
                 env[n] = v
+            for k, v in kwargs.items():
+                if k not in names or k in env:
+                    raise _Raised(None)
+                env[k] = v
             for i, d in enumerate(a.defaults):
                 n = names[len(names) - len(a.defaults) + i]
                 if n not in env:
                     env[n] = self.expr(d, {})
             for n in names:
                 if n not in env:
-                    raise AnalysisError("%s: missing argument %s" % (self.func.qualname, n))
+                    raise _Raised(None)
             self.env_src = {}
             try:
-                self.block(self.func.node.body, env)
+                self.block(func.node.body, env)
             except _Return as r:
                 return r.value
             return None
         finally:
             self.depth -= 1
+            self.cur, self.module, self.env_src = saved
 
     # ---- statements ------------------------------------------------------------------
     def block(self, stmts, env):
@@ -211,7 +266,7 @@ class StringEval:
             self.env_src[s.target.id] = s
         elif isinstance(s, ast.Return):
             v = self.expr(s.value, env) if s.value is not None else None
-            if self.depth == 1:
+            if self.depth == 1 and self.cur is self.func:
                 src = s.value
                 if isinstance(src, ast.Name) and src.id in self.env_src:
                     src = self.env_src[src.id]
@@ -271,7 +326,7 @@ class StringEval:
         elif isinstance(s, (ast.Import, ast.ImportFrom, ast.Global, ast.Assert)):
             pass
         else:
-            raise AnalysisError("%s: statement %s outside the fragment" % (self.func.qualname, type(s).__name__))
+            raise AnalysisError("%s: statement %s outside the fragment" % (self.cur.qualname, type(s).__name__))
 
     def assign(self, t, v, env, src):
         if isinstance(t, ast.Name):
@@ -309,7 +364,7 @@ class StringEval:
     def expr(self, e, env):
         m = getattr(self, "x_" + type(e).__name__, None)
         if m is None:
-            raise AnalysisError("%s: expression %s outside the fragment (%s)" % (self.func.qualname, type(e).__name__, ast.unparse(e)[:60]))
+            raise AnalysisError("%s: expression %s outside the fragment (%s)" % (self.cur.qualname, type(e).__name__, ast.unparse(e)[:60]))
         return m(e, env)
 
     def x_Constant(self, e, env):
@@ -332,9 +387,14 @@ class StringEval:
             return self.lift(v)
         if e.id in ("len", "str", "isinstance", "int"):
             return ("builtin", e.id)
-        raise AnalysisError("%s: name %s outside the fragment" % (self.func.qualname, e.id))
+        raise AnalysisError("%s: name %s outside the fragment" % (self.cur.qualname, e.id))
 
     def lift(self, v):
+        from .consts import Ref
+        if isinstance(v, Ref):
+            if v.kind == "func":
+                return ("func", v.obj)
+            raise AnalysisError("class reference %s outside the fragment" % v.name)
         if isinstance(v, str):
             return SStr([v])
         if isinstance(v, dict):
@@ -402,6 +462,13 @@ class StringEval:
         return self.binop(e.op, self.expr(e.left, env), self.expr(e.right, env), e)
 
     def binop(self, op, a, b, node):
+        if isinstance(a, Pos) and isinstance(b, int) and isinstance(op, (ast.Add, ast.Sub)):
+            r = a.shifted(b if isinstance(op, ast.Add) else -b)
+            if r is None:
+                raise AnalysisError("position arithmetic across a name of unknown length: %s" % ast.unparse(node)[:80])
+            return r
+        if isinstance(b, Pos) and isinstance(a, int) and isinstance(op, ast.Add):
+            return self.binop(op, b, a, node)
         if isinstance(op, ast.Add):
             if isinstance(a, SStr) and isinstance(b, SStr):
                 return SStr(a.parts + b.parts)
@@ -497,6 +564,8 @@ class StringEval:
         return True
 
     def compare(self, op, a, b, node):
+        if isinstance(a, Pos) or isinstance(b, Pos):
+            return self.pos_compare(op, a, b, node)
         if isinstance(op, (ast.Is, ast.IsNot)):
             if b is None or a is None:
                 return ((a is None) and (b is None)) != isinstance(op, ast.IsNot)
@@ -527,6 +596,26 @@ class StringEval:
         if isinstance(a, int) and isinstance(b, int):
             return {ast.Lt: a < b, ast.LtE: a <= b, ast.Gt: a > b, ast.GtE: a >= b}[type(op)]
         raise AnalysisError("comparison outside the fragment: %s" % ast.unparse(node)[:80])
+
+    _SYM = {ast.Eq: "==", ast.NotEq: "!=", ast.Lt: "<", ast.LtE: "<=", ast.Gt: ">", ast.GtE: ">="}
+    _FLIP = {"==": "==", "!=": "!=", "<": ">", "<=": ">=", ">": "<", ">=": "<="}
+
+    def pos_compare(self, op, a, b, node):
+        sym = self._SYM.get(type(op))
+        if sym is None:
+            raise AnalysisError("comparison of a position outside the fragment: %s" % ast.unparse(node)[:80])
+        if isinstance(a, Pos) and isinstance(b, int):
+            r = a.cmp(sym, b)
+        elif isinstance(b, Pos) and isinstance(a, int):
+            r = b.cmp(self._FLIP[sym], a)
+        elif isinstance(a, Pos) and isinstance(b, Pos) and a.exact and b.exact:
+            r = Pos(a.lo, True).cmp(sym, b.lo)
+        else:
+            r = None
+        if r is None:
+            raise AnalysisError("position %r of a character behind a name of unknown length: cannot decide %s"
+                                % (a if isinstance(a, Pos) else b, ast.unparse(node)[:80]))
+        return r
 
     # generic-atom semantics for literal comparisons ------------------------------------------
     @staticmethod
@@ -561,6 +650,10 @@ class StringEval:
             if e.slice.step is not None:
                 raise AnalysisError("slice step outside the fragment")
             for x in (lo, hi):
+                if isinstance(x, Pos):
+                    if not (isinstance(base, SStr) and x.s is not None and x.s.parts == base.parts):
+                        raise AnalysisError("slice at a position found in another string: %s" % ast.unparse(e)[:60])
+                    continue
                 if not (x is None or (isinstance(x, int) and not isinstance(x, bool))):
                     raise AnalysisError("slice bound is not a constant: %s" % ast.unparse(e)[:60])
             if isinstance(base, list):
@@ -615,8 +708,8 @@ class StringEval:
 
     def slice(self, s, lo, hi, node):
         parts = list(s.parts)
-        a = self._boundary(s, lo, node) if lo is not None else 0
-        b = self._boundary(s, hi, node) if hi is not None else len(parts)
+        a = (lo.part if isinstance(lo, Pos) else self._boundary(s, lo, node)) if lo is not None else 0
+        b = (hi.part if isinstance(hi, Pos) else self._boundary(s, hi, node)) if hi is not None else len(parts)
         cut = False
         if isinstance(a, tuple):
             i = a[1]
@@ -638,9 +731,9 @@ class StringEval:
 
     def x_Call(self, e, env):
         f = e.func
-        if e.keywords and not (isinstance(f, ast.Name)):
-            raise AnalysisError("keyword arguments outside the fragment: %s" % ast.unparse(e)[:60])
         if isinstance(f, ast.Attribute):
+            if e.keywords and not self._is_logging(e):
+                raise AnalysisError("keyword arguments outside the fragment: %s" % ast.unparse(e)[:60])
             if self._is_logging(e):
                 return None
             recv = self.expr(f.value, env)
@@ -648,27 +741,13 @@ class StringEval:
             return self.method(recv, f.attr, args, e)
         fn = self.expr(f, env)
         args = [self.expr(a, env) for a in e.args]
-        if isinstance(fn, tuple) and fn[0] == "func":
-            target = fn[1]
-            if target.node is not self.func.node:
-                raise AnalysisError("call of %s outside the fragment" % target.qualname)
-            if e.keywords:
-                names = self.func.params()
-                full = list(args) + [None] * (len(names) - len(args))
-                given = set(range(len(args)))
-                for k in e.keywords:
-                    if k.arg not in names:
-                        raise AnalysisError("unknown keyword %s" % k.arg)
-                    full[names.index(k.arg)] = self.expr(k.value, env)
-                    given.add(names.index(k.arg))
-                args = [full[i] for i in sorted(given)] if given == set(range(len(given))) else None
-                if args is None:
-                    raise AnalysisError("keyword call outside the fragment")
-            saved_src = self.env_src
-            try:
-                return self.call(args)
-            finally:
-                self.env_src = saved_src
+        if isinstance(fn, tuple) and len(fn) == 2 and fn[0] == "func":
+            kwargs = {}
+            for k in e.keywords:
+                if k.arg is None:
+                    raise AnalysisError("**kwargs call outside the fragment")
+                kwargs[k.arg] = self.expr(k.value, env)
+            return self.call_function(fn[1], args, kwargs)
         if isinstance(fn, tuple) and fn[0] == "builtin":
             if fn[1] == "len" and len(args) == 1:
                 v = args[0]
@@ -790,6 +869,26 @@ class StringEval:
             if found is None:
                 return (s, SStr([]), SStr([])) if name == "partition" else (SStr([]), SStr([]), s)
             return (SStr(s.parts[:found]), sep, SStr(s.parts[found + n:]))
+        if name in ("find", "rfind", "index", "rindex") and len(args) == 1:
+            l = S(args[0])
+            if len(l.parts) == 0 or (l.concrete() and all(c in IDENT_CHARS for c in l.text()) and any(isinstance(p, Atom) for p in s.parts)):
+                raise AnalysisError("%s(%r) may match inside a name of unknown text" % (name, l))
+            n = len(l.parts)
+            rng = range(0, len(s.parts) - n + 1)
+            found = None
+            for i in (rng if name in ("find", "index") else reversed(rng)):
+                if s.parts[i:i + n] == l.parts:
+                    found = i
+                    break
+            if found is None:
+                if name in ("index", "rindex"):
+                    raise _Raised(node)
+                return -1
+            before = s.parts[:found]
+            exact = all(isinstance(p, str) for p in before)
+            if exact:
+                return found
+            return Pos(found, False, s, found)
         if name == "join" and len(args) == 1 and isinstance(args[0], (list, tuple)):
             out = []
             for i, x in enumerate(args[0]):
